@@ -2,6 +2,8 @@ from propsdef import KERNEL, CORR, HARNESS
 
 PROP = {
     "obligations": [
+        "Xt.Props.C18.msgpack_slice_eq_reader",
+        "Xt.Props.C18.depth_verdict_slice_eq_reader",
         "schedule_irrelevant_bytes", "toml_source_supply_independent",
         "Xt.Props.C09.capture_transparent", "Xt.Props.C09.detection_then_takeover",
         "Xt.Props.C09.no_fault_no_error", "Xt.Props.C09.eof_flips_to_slice",
